@@ -389,11 +389,11 @@ func modeC13(e *Env) {
 func e2eMode(fam string, pickCol func(r *rand.Rand) Col, statePatterns bool) func(*Env) {
 	return func(e *Env) {
 		cfgs := allCfgs()
-		n := e.N(16, 300)
+		n := e.N(48, 600)
 		for i := 0; i < n; i++ {
 			cfg := cfgs[i%len(cfgs)]
 			l := &Log{Cfg: cfg}
-			ncols := 1 + e.R.Intn(4)
+			ncols := 1 + e.R.Intn(5)
 			t := &Table{ID: uint64(200 + i), DB: "dv", Name: "t" + itoa(i)}
 			for c := 0; c < ncols; c++ {
 				col := pickCol(e.R)
@@ -658,6 +658,61 @@ func modeC09(e *Env) {
 			t.Cols = append(t.Cols, col)
 		}
 		rowsRandom(e, cfg, t, e.R.Intn(3), "small")
+	}
+	// (a2) long values: length-prefixed kinds with 2..4 length bytes and payloads around 255/256, 64K and beyond
+	longCols := []Col{colBlob(2), colBlob(3), colBlob(4), colGeometry(2), colGeometry(4), colVarchar(65535), colVarchar(300), colChar(300), colChar(1023)}
+	for i := 0; i < e.N(60, 1500); i++ {
+		cfg := cfgs[i%len(cfgs)]
+		t := &Table{ID: uint64(1 + e.R.Intn(1<<20)), DB: "dl", Name: "tl"}
+		for c := 0; c < 1+e.R.Intn(3); c++ {
+			col := longCols[e.R.Intn(len(longCols))]
+			if e.R.Intn(3) == 0 {
+				col = lc[e.R.Intn(len(lc))]
+			}
+			col.Name = "c" + itoa(c)
+			t.Cols = append(t.Cols, col)
+		}
+		kind := pickS(e.R, "write", "update", "delete")
+		nc := len(t.Cols)
+		all := make([]bool, nc)
+		for k := range all {
+			all[k] = true
+		}
+		var rows []RowPair
+		for r := 0; r < 1+e.R.Intn(3); r++ {
+			img := func() []Cell {
+				cells := make([]Cell, nc)
+				for k := range cells {
+					c := &t.Cols[k]
+					lim := pick(e.R, 255, 256, 257, 300, 4096, 65535, 65536, 70000)
+					switch c.Kind {
+					case "varchar", "char":
+						if lim > c.P1 {
+							lim = c.P1
+						}
+						cells[k] = Cell{St: "val", Bytes: append(leN(uint64(lim), map[bool]int{true: 2, false: 1}[c.P1 > 255]), randBytes(e.R, lim)...)}
+					case "blob", "geometry":
+						if c.P1 == 2 && lim > 65535 {
+							lim = 65535
+						}
+						cells[k] = Cell{St: "val", Bytes: append(leN(uint64(lim), c.P1), randBytes(e.R, lim)...)}
+					default:
+						cells[k] = Cell{St: "val", Bytes: genCell(e.R, c, 30)}
+					}
+				}
+				return cells
+			}
+			none := genImage(e.R, t, make([]bool, nc), 0)
+			rp := RowPair{B: none, A: none}
+			if kind != "write" {
+				rp.B = img()
+			}
+			if kind != "delete" {
+				rp.A = img()
+			}
+			rows = append(rows, rp)
+		}
+		rowsCase(e, cfg, t, kind, rows, nil, all, all, "long")
 	}
 	// (b) wide: all types x full metadata domain, up to 300 columns, up to 50 rows
 	m := e.N(40, 1200)
